@@ -285,6 +285,16 @@ class Evaluator:
             return tuple(self.eval(x, env) for x in e.elts)
         if isinstance(e, ast.List):
             return [self.eval(x, env) for x in e.elts]
+        if isinstance(e, ast.Dict) and all(k is not None for k in e.keys):
+            out = {}
+            for k, v in zip(e.keys, e.values):
+                kk = self.eval(k, env)
+                if isinstance(kk, AStr):
+                    kk = kk.concrete()
+                    if kk is None:
+                        raise Unsupported("abstract string as dict key")
+                out[kk] = self.eval(v, env)
+            return out
         if isinstance(e, ast.BoolOp):
             if isinstance(e.op, ast.And):
                 v = True
@@ -510,6 +520,11 @@ class Evaluator:
                 raise Raised("ValueError")
             if f.attr == "copy" and isinstance(recv, list) and not args:
                 return list(recv)
+            if f.attr == "get" and isinstance(recv, dict) and 1 <= len(args) <= 2:
+                for kk, vv in recv.items():
+                    if self.eq(kk, args[0]):
+                        return vv
+                return args[1] if len(args) == 2 else None
             if f.attr == "get" and isinstance(recv, ADict) and 1 <= len(args) <= 2:
                 v = recv.d.get(args[0], MISSING)
                 if v is MISSING:
